@@ -15,7 +15,9 @@ systematically enumerated input space.
    t from a 64-token alphabet, and pairs of edits for short seeds; quick =
    VERIF_SEED-selected 1/Stride of that closed domain.  TLC emits the edited
    sequence itself (seed token indices / alphabet indices); the harness only
-   renders it.
+   renders it.  Families without a seed: the byte-level end-of-file family, the redeclaration
+   family and the zero-sized family (an object type of size 0 x every context an object or a
+   value can appear in x position; all 360 members in every tier).
 3. Every input is run through `chibicc -cc1 -cc1-input F -cc1-output O F` (wait
    status visible) under a 5 s limit, then `as` on the output if exit 0; the
    observation {status, signal, first stderr line, output exists, as status} is
@@ -144,7 +146,8 @@ def gen_edits(ctx, seeds, stride, pairstride, tailstride, pairmax=6):
         os.unlink(out)
     pt = sorted(ALPHABET.index(t) + 1 for t in ("int", "x", "(", ")", "{", "}", ";"))
     cfg = ctx.cfg("robust", "Edits.cfg", NAlpha=len(ALPHABET), PairMax=pairmax, PairTok="{%s}" % ",".join(map(str, pt)),
-                  Seed=ctx.seed, Stride=stride, PairStride=pairstride, TailStride=tailstride, NDir=len(DIRS), NEnd=len(ENDS))
+                  Seed=ctx.seed, Stride=stride, PairStride=pairstride, TailStride=tailstride, NDir=len(DIRS), NEnd=len(ENDS),
+                  NZ=NZ, NZStruct=NZSTRUCT, NCtx=NCTX, NValCtx=NVALCTX)
     g = ctx.tlc("robust", "Edits", cfg, env=dict(SEEDS=sf, OUT=out), workers=4, timeout=1500, heap="6g")
     if not g.ok:
         raise Infra("Edits.tla: %s\n%s" % (g.violated, g.trace_text()[:1500]))
@@ -178,6 +181,116 @@ def redecl_text(rd):
     if sc == 4:
         return "void f(int X) { %s }\n" % B
     return "void f(void) { %s { %s } }\n" % (A, B)
+
+
+# the zero-sized family (Edits.tla Zeros): an object type of size 0 (z) in every context an object or a value can appear in (c),
+# at position / in variant p.  Every program with a main() checks itself (exit status 0), so that the family can be validated
+# against gcc as a whole: `python3 harness/c13.py --zero-oracle gcc` (development time; gcc accepts and runs every member
+# correctly except pointer-arith.3, which it rejects: "arithmetic on pointer to an empty aggregate").  C13 judges the outcome
+# class only; the values belong to C06.
+ZTYPES = {1: "typedef struct {} Z;", 2: "typedef union {} Z;", 3: "typedef struct { int a[0]; } Z;",
+          4: "typedef struct { struct {} i; } Z;", 5: "typedef struct { struct {} i[2]; double d[0]; } Z;",
+          6: "typedef struct { int : 0; } Z;", 7: "typedef int Z[0];", 8: "typedef struct {} Z[3];"}
+ZNAMES = {1: "empty-struct", 2: "empty-union", 3: "struct-of-int0", 4: "struct-of-empty", 5: "struct-of-empty-array", 6: "struct-of-zero-width",
+          7: "array-int0", 8: "array-of-empty"}
+CNAMES = {1: "param", 2: "arg-extern", 3: "return", 4: "member-by-value", 5: "assign", 6: "cond-comma-stmtexpr", 7: "variadic-arg", 8: "va_arg",
+          9: "variadic-callee-named", 10: "register-exhaustion", 11: "compound-literal", 12: "indirect-call",
+          13: "local", 14: "global", 15: "sizeof", 16: "element", 17: "member-init", 18: "pointer-arith"}
+NZ, NZSTRUCT, NCTX, NVALCTX = 8, 6, 18, 12
+
+
+def _ins(items, p, z):
+    """the three-slot list with z at position p (1..3)"""
+    l = list(items)
+    l.insert(p - 1, z)
+    return l
+
+
+def zero_text(z, c, p):
+    T = ZTYPES[z] + "\n"
+    arr = z > NZSTRUCT
+    if c == 1:
+        ps, as_ = _ins(["int x", "double d"], p, "Z e"), _ins(["3", "1.0"], p, "e")
+        return T + "int f(%s) { return x + (int)d; }\nint main(void) { Z e; return f(%s) - 4; }\n" % (", ".join(ps), ", ".join(as_))
+    if c == 2:
+        ps, as_ = _ins(["int", "double"], p, "Z"), _ins(["3", "1.0"], p, "e")
+        return T + "int g(%s);\nint h(void) { Z e; return g(%s); }\n" % (", ".join(ps), ", ".join(as_))
+    if c == 3:
+        if p == 1:
+            return T + "Z r(int x) { Z e; return e; }\nint main(void) { Z e = r(1); r(2); return 0; }\n"
+        if p == 2:
+            return T + "Z r(int x) { return (Z){}; }\nint f(Z e, int x) { return x; }\nint main(void) { return f(r(1), 3) - 3; }\n"
+        return T + "Z r(int x) { Z e; return e; }\nint main(void) { Z (*fp)(int) = r; Z e; e = fp(1); return 0; }\n"
+    if c == 4:
+        ms = _ins(["int a;", "double b;"], p, "Z z;")
+        return T + "struct W { %s };\nstruct W id(struct W w) { return w; }\nint main(void) { struct W w; w.a = 3; w.b = 1.0; struct W v = id(w); return v.a + (int)v.b - 4; }\n" % " ".join(ms)
+    if c == 5:
+        body = {1: "Z a, b; a = b;", 2: "Z a, b, c; a = b = c;", 3: "Z a, b; Z *q = &a; *q = b; b = *q;"}[p]
+        return T + "int main(void) { %s return 0; }\n" % body
+    if c == 6:
+        body = {1: "Z a, b; int c = 0; Z d = c ? a : b;", 2: "Z a; int c = 1; Z d = (c++, a); c -= 2;", 3: "Z a; int c = 0; Z d = ({ c; a; });"}[p]
+        return T + "int main(void) { %s (void)&d; return c; }\n" % body
+    if c == 7:
+        as_ = _ins(["5", "2.0"], p, "e")
+        return T + "int v(int n, ...);\nint h(void) { Z e; return v(3, %s); }\n" % ", ".join(as_)
+    if c == 8:
+        get = _ins(["int k = va_arg(ap, int);", "double d = va_arg(ap, double);"], p, "Z e = va_arg(ap, Z);")
+        as_ = _ins(["5", "2.0"], p, "e")
+        return "#include <stdarg.h>\n" + T + "int v(int n, ...) { va_list ap; va_start(ap, n); %s va_end(ap); (void)&e; return n + k + (int)d; }\nint main(void) { Z e; return v(3, %s) - 10; }\n" % (" ".join(get), ", ".join(as_))
+    if c == 9:
+        ps, as_ = _ins(["int n", "double d"], p, "Z e"), _ins(["3", "1.0"], p, "e")
+        return "#include <stdarg.h>\n" + T + "int v(%s, ...) { va_list ap; va_start(ap, %s); int k = va_arg(ap, int); double q = va_arg(ap, double); va_end(ap); return n + (int)d + k + (int)q; }\nint main(void) { Z e; return v(%s, 5, 2.0) - 11; }\n" % (
+            ", ".join(ps), ps[-1].split()[-1], ", ".join(as_))
+    if c == 10:
+        if p == 1:
+            ps = ["int a%d" % i for i in range(1, 7)] + ["Z e", "int a7"]
+            as_ = [str(i) for i in range(1, 7)] + ["e", "7"]
+            ret, exp = "a1 + a6 + a7", 14
+        elif p == 2:
+            ps = ["double d%d" % i for i in range(1, 9)] + ["Z e", "double d9"]
+            as_ = ["%d.0" % i for i in range(1, 9)] + ["e", "9.0"]
+            ret, exp = "(int)(d1 + d8 + d9)", 18
+        else:
+            ps = ["int a%d" % i for i in range(1, 8)] + ["Z e", "int a8", "Z g", "long double l"]
+            as_ = [str(i) for i in range(1, 8)] + ["e", "8", "e", "9.0L"]
+            ret, exp = "a1 + a7 + a8 + (int)l", 25
+        return T + "int f(%s) { return %s; }\nint main(void) { Z e; return f(%s) - %d; }\n" % (", ".join(ps), ret, ", ".join(as_), exp)
+    if c == 11:
+        body = {1: "return f((Z){}, 3) - 3;", 2: "Z e = (Z){}; return f(e, 0);", 3: "Z e; e = (Z){}; Z *q = &(Z){}; e = *q; return f(e, 0);"}[p]
+        return T + "int f(Z e, int x) { return x; }\nint main(void) { %s }\n" % body
+    if c == 12:
+        if p == 1:
+            return T + "int k();\nint h(void) { Z e; return k(e, 3); }\n"
+        if p == 2:
+            return T + "int f(Z e, int x) { return x; }\nint main(void) { int (*fp)(Z, int) = f; Z e; return fp(e, 3) - 3; }\n"
+        return T + "int f(Z e, int n) { return n ? f(e, n - 1) : 0; }\nint main(void) { Z e; return f(e, 3); }\n"
+    if c == 13:
+        body = {1: "Z e; Z *q = &e;", 2: "static Z e; Z *q = &e;", 3: "Z e = {}; Z *q = &e;"}[p]
+        return T + "int main(void) { %s return q == 0; }\n" % body
+    if c == 14:
+        decl = {1: "Z g;", 2: "Z g = {};", 3: "static Z g; extern Z x;"}[p]
+        return T + decl + "\nZ *q = &g;\nint main(void) { return q == 0; }\n"
+    if c == 15:
+        body = {1: "int n = sizeof(Z);", 2: "Z e; int n = sizeof e + sizeof(e);", 3: "char b[sizeof(Z) + 1]; int n = sizeof b - 1 + (_Alignof(Z) == 0);"}[p]
+        return T + "int main(void) { %s return n; }\n" % body
+    if c == 16:
+        body = {1: "Z a[3]; Z *q = &a[1]; int n = sizeof a;", 2: ("Z a[3]; Z *q = &a[2]; int n = sizeof a[1];" if arr else "Z a[3]; a[1] = a[2]; Z *q = &a[0]; int n = sizeof a[1];"),
+                3: "int m = 2; Z a[m][2]; Z *q = &a[1][1]; int n = sizeof a;"}[p]
+        return T + "int main(void) { %s return n + (q == 0); }\n" % body
+    if c == 17:
+        if p == 1:
+            return T + "struct W { int a; Z z; int b; } w = { 1, {}, 2 };\nint main(void) { return w.a + w.b - 3; }\n"
+        if p == 2:
+            return T + "struct W { int a; Z z; int b; } w = { .b = 2, .z = {}, .a = 1 };\nint main(void) { return w.a + w.b - 3; }\n"
+        return T + "struct W { int a; Z z; int b; };\nint main(void) { struct W w = { 1, {}, 2 }; struct W v = (struct W){ .z = {}, .b = 2 }; return w.a + w.b + v.a + v.b - 5; }\n"
+    if c == 18:
+        body = {1: "Z *r = q + 1; int n = r == 0;", 2: "q++; Z *r = &q[1]; int n = r == 0;", 3: "long n = &a[1] - &a[1]; n = 0;"}[p]
+        return T + "int main(void) { Z a[2]; Z *q = a; %s return (int)n; }\n" % body
+    raise ValueError(c)
+
+
+def zero_name(zs):
+    return "zero/%s.%s.%d" % (ZNAMES[zs["z"]], CNAMES[zs["c"]], zs["p"])
 
 
 def text_of(seed, r, tail=None):
@@ -564,6 +677,13 @@ def run(ctx):
         inputs.append(dict(name=s["name"], text=render(s["toks"]), must="accept" if s["valid"] else "any", cls="seed", seed=s["name"], ed="id",
                            flags=s["flags"]))
     for r in rows:
+        if r["s"] == 0 and r["zs"]["z"]:
+            zs = r["zs"]
+            if zs["c"] <= NVALCTX and zs["z"] > NZSTRUCT:
+                raise Infra("Edits.tla emitted an array type in a by-value context: %s" % zs)
+            nm = zero_name(zs)
+            inputs.append(dict(name=nm, text=zero_text(zs["z"], zs["c"], zs["p"]), must="any", cls="zero", seed=nm, ed="id", flags=["-I" + tree + "/include"]))
+            continue
         if r["s"] == 0:
             rd = r["rd"]
             nm = "redecl/%s+%s@%d" % (KIND_NAMES[rd["a"]], KIND_NAMES[rd["b"]], rd["sc"])
@@ -588,6 +708,7 @@ def run(ctx):
         ctx.note_case("%s|%s|%s" % (x.get("seed", x.get("name")), cls, norm_msg(o["msg"])), nontrivial=x["cls"] != "seed")
     ctx.cov["traces_validated_against_impl"] += len(inputs)
     ctx.cov["inputs"] = dict(seeds=len(seeds), edits=len(rows), pairs=len([1 for r in rows if len(r["ed"]) == 2]),
+                             zero_sized=len([1 for x in inputs if x["cls"] == "zero"]),
                              must_accept=len([1 for x in inputs if x["must"] == "accept"]),
                              accepted=len([1 for x in inputs if x["obs"]["status"] == 0 and not x["obs"]["sig"] and not x["obs"]["tmo"]]))
     for x in inputs[len(seeds):: max(1, len(rows) // 5)][:5]:
@@ -605,7 +726,7 @@ def run(ctx):
         "inputs are token-level edits of the seeds rendered with single spaces; byte-level garbage (NUL bytes, invalid UTF-8, very long lines) is outside the enumerated domain"]
     return ctx.finish(
         rule="input = one state of Edits.tla: (seed, single edit Delete/Replace/Insert/Dup/Swap with a token of the 68-token alphabet) or a pair of edits for seeds of <= 6 tokens, "
-             "plus the seeds themselves and the must-accept corpus (own sources, test/*.c, layout programs); each is run through chibicc -cc1 (+ as) and its observation is one event "
+             "plus the end-of-file, redeclaration and zero-sized families (type of size 0 x context x position), the seeds themselves and the must-accept corpus (own sources, test/*.c, layout programs); each is run through chibicc -cc1 (+ as) and its observation is one event "
              "validated by TLC against OutcomeTrace.tla; quick = VERIF_SEED-selected 1/Stride of the closed domain; non-trivial = a real edit or corpus program (not an unedited seed); "
              "distinct = distinct (seed, terminal class, normalised diagnostic message)",
         exhaustive=not q)
@@ -632,6 +753,32 @@ def replay(ctx, path):
     return ctx.finish(rule="replay of one recorded case")
 
 
+def zero_oracle(cc):
+    """development-time validation of the zero-sized family's Level A against a reference compiler: every member must
+    compile, and those with a main() must exit 0; prints the members for which that is not so"""
+    import subprocess, tempfile
+    d = tempfile.mkdtemp(prefix="c13-zero-")
+    bad = 0
+    dom = [(z, c, p) for z in range(1, NZ + 1) for c in range(1, NCTX + 1) for p in (1, 2, 3) if c > NVALCTX or z <= NZSTRUCT]
+    for z, c, p in dom:
+        t = zero_text(z, c, p)
+        f = "%s/z.c" % d
+        open(f, "w").write(t)
+        link = "int main" in t
+        r = subprocess.run([cc, "-w", "-std=gnu11", "-o", d + "/z.out"] + ([] if link else ["-c"]) + [f], capture_output=True, text=True, timeout=120)
+        st = "compile:%d" % r.returncode
+        if r.returncode == 0 and link:
+            st += " run:%d" % subprocess.run([d + "/z.out"], timeout=20).returncode
+        if st not in ("compile:0", "compile:0 run:0"):
+            bad += 1
+            print(zero_name(dict(z=z, c=c, p=p)), st, r.stderr[:200].replace("\n", " | "))
+    print("%d members, %d not accepted / not running to 0 by %s" % (len(dom), bad, cc))
+    import shutil
+    shutil.rmtree(d, ignore_errors=True)
+
+
 if __name__ == "__main__":
     if len(sys.argv) == 3 and sys.argv[1] == "--worker":
         worker_main(sys.argv[2])
+    if len(sys.argv) == 3 and sys.argv[1] == "--zero-oracle":
+        zero_oracle(sys.argv[2])
